@@ -7,6 +7,7 @@ import CandidModel.Driver.De
 import CandidModel.Driver.Text
 import CandidModel.Driver.Check
 import CandidModel.Driver.Bindgen
+import CandidModel.Driver.Rand
 /-
   Line-protocol driver.  One request per line: `<op>\t<arg>\t<arg>…`; one answer per line:
   `<model answer>\t<spec answer>` (or `bad-op` for what no handler accepts — never a default).
@@ -14,7 +15,7 @@ import CandidModel.Driver.Bindgen
 open Candid Candid.Driver
 
 def handlers : List (String → List String → Option String) :=
-  [handleLeb, handlePrincipal, handleSubtype, handleWire, handleLabels, handleDe, handleText, handleCheck, handleBindgen]
+  [handleLeb, handlePrincipal, handleSubtype, handleWire, handleLabels, handleDe, handleText, handleCheck, handleBindgen, handleRand]
 
 def answer (line : String) : String :=
   match line.splitOn "\t" with
